@@ -4,6 +4,7 @@
 package main
 
 import (
+	"encoding/json"
 	"flag"
 	"fmt"
 	"os"
@@ -27,6 +28,7 @@ func main() {
 	out := flag.String("out", "/verif/evidence", "evidence directory")
 	knownPath := flag.String("known", "/verif/known_findings.txt", "known findings file (read only)")
 	list := flag.Bool("list", false, "list obligations")
+	selftest := flag.String("selftest", "", "JSON result of selftest/run.sh for the (single) property; merged into the evidence (thorough tier)")
 	flag.Parse()
 	seed := 0
 	if s := os.Getenv("VERIF_SEED"); s != "" {
@@ -92,7 +94,31 @@ func main() {
 				fmt.Printf("  %-10s %-80s %s  %s\n", o.Verdict, o.Key, o.Pos, o.Detail)
 			}
 		}
-		if cd := r.Emit(p, *out, *tier, seed, known, fixed, wall, nil); cd > code {
+		var extra map[string]any
+		selftestBad := false
+		if *selftest != "" && len(ids) == 1 {
+			// the both-ways self-test of this property's rules ran on scratch copies; its counts belong to the evidence
+			extra = map[string]any{}
+			var st map[string]any
+			if b, e := os.ReadFile(*selftest); e == nil && json.Unmarshal(b, &st) == nil && st["property"] == id {
+				for _, k := range []string{"mutants_fired", "mutants_total", "benign_silent", "benign_total", "problems", "details"} {
+					extra["selftest_"+k] = st[k]
+				}
+				if ps, ok := st["problems"].([]any); ok && len(ps) > 0 {
+					selftestBad = true
+				}
+			} else {
+				extra["selftest_problems"] = []string{"self-test result missing or unreadable: " + *selftest}
+				selftestBad = true
+			}
+		}
+		cd := r.Emit(p, *out, *tier, seed, known, fixed, wall, extra)
+		if cd == 0 && selftestBad {
+			// the checker failed its own both-ways test: not a violation by canopy, so no VIOLATION line, but not a pass either
+			fmt.Println("SELFTEST FAILED: see selftest_problems in the evidence file (the checker, not canopy, is at fault)")
+			cd = 2
+		}
+		if cd > code {
 			code = cd
 		}
 	}
